@@ -22,7 +22,7 @@ VARIABLES l, viol, drift
 tvars == <<l, viol, drift>>
 
 RangeOf(s) == {s[i] : i \in DOMAIN s}
-Tree(line) == [i \in DOMAIN line.blk |-> [num |-> line.blk[i].num, par |-> line.blk[i].par, evs |-> RangeOf(line.blk[i].evs)]]
+Tree(line) == [i \in DOMAIN line.blk |-> [num |-> line.blk[i].num, par |-> line.blk[i].par, evs |-> RangeOf(line.blk[i].evs), len |-> line.blk[i].len]]
 StOf(o) == St(o.synced, RangeOf(o.rows))
 States(line) == [i \in DOMAIN line.states |-> StOf(line.states[i])]
 
